@@ -629,6 +629,7 @@ func (idx *indexer) indexSince(txID uint64) error {
 
 		txIndexedEntries := 0
 		txEntries := idx.tx.Entries()
+		cutBulk := false
 
 		var txmd []byte
 
@@ -691,6 +692,16 @@ func (idx *indexer) indexSince(txID uint64) error {
 					return err
 				}
 
+				if sourceIndexer == idx && i > 0 {
+					// this index is its own source: the previous version of the entry may
+					// belong to an earlier transaction of this very bulk, which is not in
+					// the index yet, and waiting for it here would wait for ourselves.
+					// What has been gathered so far is indexed first; this transaction
+					// starts the next bulk.
+					cutBulk = true
+					break
+				}
+
 				err = sourceIndexer.WaitForIndexingUpto(context.Background(), currTxID-1)
 				if err != nil {
 					return err
@@ -750,6 +761,11 @@ func (idx *indexer) indexSince(txID uint64) error {
 					return err
 				}
 			}
+		}
+
+		if cutBulk {
+			indexableEntries -= txIndexedEntries
+			break
 		}
 
 		if indexableEntries > 0 && txIndexedEntries > 0 {
